@@ -175,6 +175,13 @@ def run_case(acc, rnd, tier, case):
                 it.clock.time += Fraction(str(op[1])) * Fraction(2, 5)
             else:
                 r.apply(op)
+                if not ticking and not frac and rnd.random() < 0.06:
+                    # the interpreter is given another clock object (public attribute): the time of the last step stays what it was
+                    from sismic.clock import SimulatedClock as _SC
+                    nc = _SC()
+                    nc.time = it.clock.time + rnd.choice((0, 0.5, 2))
+                    it.clock = nc
+                    acc.count('clock_objects_replaced_between_steps')
             acc.count('time_reads_checked')
             if it.time != last_time:
                 acc.violation('C13:interpreter-time-moved-between-steps', 'Interpreter.time changed from %r to %r by %s'
